@@ -532,6 +532,57 @@ def run_nextrule_case(p):
     return None
 
 
+def run_nextrule_nested_case(p):
+    """C05 (and C04): a rule over two variables whose refinement carries a consequent rule (next_rule nested in the
+    refinement block), literal-free conditions (the ones that hit the result caches): with the result cache on the answer
+    is the one with the cache off, which is: for every match of the base rule the refinement's conclusion if its condition
+    holds, and the consequent rule's conclusion if its own holds, and the base conclusion if neither does; three times"""
+    from entity_query_language import symbolic_mode, rule_mode, let, infer, Add
+    from entity_query_language.rule import next_rule, refinement
+    rng = random.Random(p['seed'])
+    ops = ['le', 'ge', 'eq', 'ne', 'lt']
+    o0, o1, o2 = rng.choice(ops), rng.choice(ops), rng.choice(ops)
+    dx_spec = [(rng.randrange(0, 3), rng.randrange(0, 3), rng.randrange(0, 3)) for _ in range(rng.choice([2, 3, 4]))]
+    dy_spec = [rng.randrange(0, 4) for _ in range(rng.choice([2, 3, 4]))]
+    results = {}
+    for caching in (True, False):
+        O.reset_registry()
+        (O.enable_caching if caching else O.disable_caching)()
+        dx = [O.Item(name='x%d' % i, size=a, props={'k': b, 'j': c}) for i, (a, b, c) in enumerate(dx_spec)]
+        dy = [O.Item(name='y%d' % i, size=a) for i, a in enumerate(dy_spec)]
+        try:
+            with symbolic_mode():
+                x = let(type_=O.Item, domain=dx)
+                y = let(type_=O.Item, domain=dy)
+                q = infer(v := let(type_=O.Built), O.OPS[o0](x.size, y.size))
+            with rule_mode(q):
+                Add(v, O.Built(a=x, b=y, tag='base'))
+                with refinement(O.OPS[o1](x.size, x.props['k'])):
+                    Add(v, O.Built(a=x, b=y, tag='R'))
+                    with next_rule(O.OPS[o2](x.size, x.props['j'])):
+                        Add(v, O.Built(a=x, b=y, tag='N'))
+            outs = [sorted((dx.index(g.a), dy.index(g.b), g.tag) for g in q.evaluate()) for _ in range(3)]
+        except Exception as e:  # noqa
+            O.enable_caching()
+            return {'caching': caching, 'exception': repr(e), 'trace': traceback.format_exc(limit=4), 'signature_kind': 'exception'}
+        finally:
+            O.enable_caching()
+        results[caching] = outs
+    want = []
+    for i, (a, b, c) in enumerate(dx_spec):
+        for j, ys in enumerate(dy_spec):
+            if O.OPS[o0](a, ys):
+                kinds = (['R'] if O.OPS[o1](a, b) else []) + (['N'] if O.OPS[o2](a, c) else [])
+                want.extend((i, j, k) for k in (kinds or ['base']))
+    want = sorted(want)
+    if results[True] != results[False]:
+        return {'ops': (o0, o1, o2), 'x': dx_spec, 'y': dy_spec, 'cache_on': results[True], 'cache_off': results[False],
+                'signature_kind': 'cache-on-differs-from-cache-off'}
+    if results[False] != [want] * 3:
+        return {'ops': (o0, o1, o2), 'x': dx_spec, 'y': dy_spec, 'got': results[False], 'want': want, 'signature_kind': 'reference'}
+    return None
+
+
 def run_the_nested_case(p):
     """C06 / C15: `the` used inside another query.  (a) correlated: the(entity(o, o.name == x.name)) over owners with
     distinct names has exactly one solution per x; its attribute is an operand of the enclosing description, so the
@@ -1232,6 +1283,8 @@ def _run_case(p):
         return run_subquery_operand_case(p)
     if p.get('kind') == 'nextrule':
         return run_nextrule_case(p)
+    if p.get('kind') == 'nextrule_nested':
+        return run_nextrule_nested_case(p)
     if p.get('kind') == 'infer_nested':
         return run_infer_nested_case(p)
     if p.get('kind') == 'infer_modes':
